@@ -66,6 +66,7 @@ void Exec::op_solve(Client &c) {
 	int stages = (int)world.stages.size();
 	std::string ladder; for (auto &s : world.stages) { ladder += strf("[%s%u:%s", s.kind ? "mpf" : "dbl", s.prec, status_name(s.real_status).c_str()); if (s.told_status != s.real_status) ladder += ">" + status_name(s.told_status); for (auto &k : s.faults) ladder += "!" + k.substr(4); ladder += "]"; }
 	T(strf("  solve obj%d %dx%d %s algo=%d rv=%d status=%s stages=%d %s", o->uid, (int)o->m.rows.size(), (int)o->m.cols.size(), how.c_str(), algo, so.rv, status_name(so.status).c_str(), stages, ladder.c_str()));
+	{ Fnv h; for (auto &q : so.x) h.add(qstr(q)); for (auto &q : so.y) h.add(qstr(q)); if (so.have_basis) { h.add(so.basis.cstat); h.add(so.basis.rstat); } T("  out-digest " + hex64(h.h)); }
 	if (!world.copy_mismatch.empty()) violate("C16", "reduced-copy-differs:" + std::string(world.copy_mismatch.substr(0, 8)), world.copy_mismatch, false);
 	// probes
 	if (how == "exact") {
